@@ -273,15 +273,32 @@ func (c *Ctx) c02Deliver() {
 	} else {
 		r.Ok("C02/DELIVER/concat", "source-readonly", p.Pos(deliver.Pos()), "source is only passed to DecodeHeaders, len and bytes.NewReader")
 	}
-	sts := eng.StoresToField(eng.WithAnons(deliver), fReader)
+	var dfns []*ssa.Function
+	for g := range p.SyncReach(deliver) {
+		if eng.FuncPkgPath(g) == eng.Mod+"/pkg/message" {
+			dfns = append(dfns, g)
+		}
+	}
+	sort.Slice(dfns, func(i, j int) bool { return dfns[i].String() < dfns[j].String() })
+	sts := eng.StoresToField(dfns, fReader)
 	r.Floor("C02/DELIVER/concat", "stores to Delivery.Reader in Deliver", len(sts), 1)
 	for _, s := range sts {
 		cons := "Delivery.Reader"
-		call, ok := s.Store.Val.(*ssa.Call)
+		// the loop whose iterations must not share a reader: the loops around the store, or
+		// (when the store sits in an extracted helper) around the helper's call site
+		storeAt := ssa.Instruction(s.Store)
+		stored := s.Store.Val
+		if prm, isP := stored.(*ssa.Parameter); isP {
+			if sites := p.StaticCallSites(prm.Parent()); len(sites) == 1 {
+				storeAt = sites[0].Instr.(ssa.Instruction)
+				stored = p.Actual(stored)
+			}
+		}
+		call, ok := stored.(*ssa.Call)
 		if !ok || eng.CalleeName(call.Common()) != "io.MultiReader" {
 			// direct reader over source?
 			tr := newByteTracer(c)
-			os := tr.trace(s.Store.Val, 0, map[ssa.Value]bool{})
+			os := tr.trace(stored, 0, map[ssa.Value]bool{})
 			r.Bad("C02/DELIVER/concat", cons, p.InstrPos(s.Store), "Delivery.Reader is not io.MultiReader(headers…, bytes.NewReader(source)) (origins: %s): the trace headers or the body would be missing", originsStr(os))
 			continue
 		}
@@ -327,7 +344,7 @@ func (c *Ctx) c02Deliver() {
 		// every (stateful) reader segment must be created in the same loop iteration as the
 		// Delivery it is stored in: a reader shared across iterations is exhausted by the
 		// first store and later recipients receive nothing
-		want := loopHeaders(s.Store.Block())
+		want := loopHeaders(storeAt.Block())
 		for i := int64(0); i < n; i++ {
 			v := unwrapIface(elems[i])
 			def, ok := v.(ssa.Instruction)
@@ -573,7 +590,7 @@ func (c *Ctx) c02Read() {
 			}
 		})
 	}
-	r.Floor("C02/READ/source", "handlers calling SourceReader", n, 2)
+	r.Floor("C02/READ/source", "handlers calling SourceReader", n, 1)
 }
 
 func (c *Ctx) c02Pop3() {
@@ -729,5 +746,5 @@ func (c *Ctx) c02Pop3() {
 			}
 		}
 	}
-	r.Floor("C02/POP3/lines", "scanners over message sources in pop3", n, 2)
+	r.Floor("C02/POP3/lines", "scanners over message sources in pop3", n, 1)
 }
